@@ -75,6 +75,9 @@ func alphabet() []opT {
 		_, v6, _ := net.ParseCIDR("2001:db8::/32")
 		ops = append(ops, opT{name: verb + "(2001:db8::/32)", arg: v6, add: add, invalid: true})
 		ops = append(ops, opT{name: verb + "(10.0.0.0 mask 255.0.255.0)", arg: &net.IPNet{IP: net.IP{10, 0, 0, 0}, Mask: net.IPMask{255, 0, 255, 0}}, add: add, invalid: true})
+		for _, m := range []net.IPMask{{0, 0, 0, 255}, {0, 255, 255, 255}, {127, 255, 255, 255}, {255, 255, 255, 253}} {
+			ops = append(ops, opT{name: verb + "(10.0.0.0 mask " + net.IP(m).String() + ")", arg: &net.IPNet{IP: net.IP{10, 0, 0, 0}, Mask: m}, add: add, invalid: true})
+		}
 		ops = append(ops, opT{name: verb + "(10.0.0.0 nil mask)", arg: &net.IPNet{IP: net.IP{10, 0, 0, 0}}, add: add, invalid: true})
 		ops = append(ops, opT{name: verb + "(10.0.0.0/8 mask 16 bytes)", arg: &net.IPNet{IP: net.IP{10, 0, 0, 0}, Mask: net.CIDRMask(104, 128)}, add: add, maybe: true, key: "10.0.0.0/8"})
 		m16 := &net.IPNet{IP: net.ParseIP("172.16.0.0"), Mask: net.CIDRMask(12, 32)}
@@ -234,6 +237,9 @@ func check(s *sys) string {
 		want := s.refContains(p)
 		if got := s.f.Contains(p); got != want {
 			return fmt.Sprintf("C11: Contains(%s as 4-byte address)=%v but the set {%s} says %v", p, got, refShow(s), want)
+		}
+		if v6 := append(net.IP{0x20, 0x01, 0x0d, 0xb8, 0, 0, 0, 0, 0, 0, 0, 0}, p.To4()...); !s.ref["0.0.0.0/0"] && s.f.Contains(v6) {
+			return fmt.Sprintf("C11: Contains(%s)=true: a genuine IPv6 address, which no IPv4 range of the set {%s} covers", v6, refShow(s))
 		}
 		if got := s.f.Contains(p.To16()); got != want {
 			return fmt.Sprintf("C11: Contains(%s as 16-byte IPv4 address)=%v but the set {%s} says %v", p, got, refShow(s), want)
